@@ -199,7 +199,11 @@ func (ch *channel) SendAndClose(ctx async.Context, data []byte) status.Status {
 		s.sendWindow.Add(-size)
 
 		// Send message
-		return s.sender.sendClose(ctx, data)
+		st := s.sender.sendClose(ctx, data)
+		if !st.OK() {
+			s.closeUnsent.Store(true)
+		}
+		return st
 	}
 
 	// Open/close channel
@@ -211,7 +215,11 @@ func (ch *channel) SendAndClose(ctx async.Context, data []byte) status.Status {
 	s.sendWindow.Add(-size)
 
 	// Send open/data/close
-	return s.sender.sendOpenClose(ctx, data)
+	st := s.sender.sendOpenClose(ctx, data)
+	if !st.OK() {
+		s.closeUnsent.Store(true)
+	}
+	return st
 }
 
 // Receive
@@ -407,6 +415,12 @@ func (ch *channel) closeUser() {
 	// Check already closed
 	closed := s.closed.Load()
 	if closed {
+		// SendAndClose has closed the channel, but its close message was not queued (its context
+		// was cancelled while it waited for the write queue). The peer still has to learn that
+		// the channel ended, otherwise its handler waits until the connection is closed.
+		if s.closeUnsent.CompareAndSwap(true, false) {
+			_ = s.sender.sendClose(async.NoContext(), nil /* no data */)
+		}
 		return
 	}
 
